@@ -45,6 +45,10 @@ pub struct Setup {
     /// output directory relative to the world root, e.g. "app/src/generated"
     pub out: String,
     pub out_style: OutStyle,
+    /// how the project path is spelled (0 plain `./src-tauri`, 1 no leading `./`,
+    /// 2 trailing slash, 3 through `..`)
+    #[serde(default)]
+    pub proj_style: u8,
 }
 
 impl Setup {
@@ -55,6 +59,7 @@ impl Setup {
             conf: ConfSrc::Tauri,
             out: "app/src/generated".into(),
             out_style: OutStyle::Plain,
+            proj_style: 0,
         }
     }
     pub fn label(&self) -> String {
@@ -79,6 +84,7 @@ impl Setup {
                 conf,
                 out: "app/src/generated".into(),
                 out_style: OutStyle::Plain,
+                proj_style: 0,
             });
         }
         v
@@ -104,6 +110,10 @@ pub struct Cfg {
     /// (`visualize` is always the effective setting)
     #[serde(default)]
     pub flag_visualize: bool,
+    /// CLI only: the configuration file names this other output directory (relative
+    /// to the world root) while `-o <out>` on the command line overrides it
+    #[serde(default)]
+    pub file_out: Option<String>,
 }
 
 impl Cfg {
@@ -118,6 +128,7 @@ impl Cfg {
             field_case: None,
             file_mode: None,
             flag_visualize: false,
+            file_out: None,
         }
     }
     fn mode_in_file(&self) -> String {
@@ -187,17 +198,55 @@ impl World {
         self.root.join(&s.out)
     }
 
-    /// Write the model's sources, removing .rs files of a previous rendering.
+    /// Bring src-tauri/src in line with the model the way an editor would: only
+    /// files whose text changed are rewritten, files the model no longer has are
+    /// deleted, everything else (and its mtime) is left alone.
     pub fn write_sources(&self, m: &Model) {
+        self.write_sources_at(m, None);
+    }
+
+    /// As `write_sources`; `mtime_s`: the simulated time stamped on rewritten files.
+    pub fn write_sources_at(&self, m: &Model, mtime_s: Option<i64>) {
         let st = self.src_tauri();
         let src = st.join("src");
-        let _ = fs::remove_dir_all(&src);
         fs::create_dir_all(&src).unwrap();
-        for (p, text) in m.render() {
-            let fp = st.join(&p);
-            fs::create_dir_all(fp.parent().unwrap()).unwrap();
-            fs::write(fp, text).unwrap();
+        let rendered = m.render();
+        // delete .rs files that are not part of the model (extras are never .rs under src/ except the ones tests add explicitly afterwards)
+        let mut existing: Vec<PathBuf> = vec![];
+        collect_rs(&src, &mut existing);
+        for p in existing {
+            let rel = p.strip_prefix(&st).unwrap().to_string_lossy().into_owned();
+            if !rendered.contains_key(&rel) {
+                let _ = fs::remove_file(&p);
+            }
         }
+        for (p, text) in rendered {
+            let fp = st.join(&p);
+            if fs::read_to_string(&fp).map(|t| t == text).unwrap_or(false) {
+                continue;
+            }
+            fs::create_dir_all(fp.parent().unwrap()).unwrap();
+            fs::write(&fp, text).unwrap();
+            if let Some(t) = mtime_s {
+                set_mtime(&fp, t);
+            }
+        }
+    }
+    /// stamp one (simulated) modification time on every file of the world
+    pub fn stamp_all(&self, secs: i64) {
+        fn walk(d: &Path, secs: i64) {
+            if let Ok(rd) = fs::read_dir(d) {
+                for e in rd.flatten() {
+                    let p = e.path();
+                    match e.file_type() {
+                        Ok(t) if t.is_dir() => walk(&p, secs),
+                        Ok(t) if t.is_file() => set_mtime(&p, secs),
+                        _ => {}
+                    }
+                }
+            }
+        }
+        walk(&self.root, secs);
     }
     pub fn write_extra(&self, rel_to_src_tauri: &str, text: &str) {
         let fp = self.src_tauri().join(rel_to_src_tauri);
@@ -229,7 +278,16 @@ impl World {
         format!("{}{}", "../".repeat(up), target_rel_root)
     }
     pub fn project_arg(&self, s: &Setup) -> String {
-        self.rel_from_cwd(s, "app/src-tauri")
+        let plain = self.rel_from_cwd(s, "app/src-tauri"); // "./src-tauri" or "."
+        match (s.proj_style, s.cwd) {
+            (1, Cwd::App) => "src-tauri".into(),
+            (2, Cwd::App) => "./src-tauri/".into(),
+            (3, Cwd::App) => "./src/../src-tauri".into(),
+            (1, Cwd::SrcTauri) => "./".into(),
+            (2, Cwd::SrcTauri) => "../src-tauri".into(),
+            (3, Cwd::SrcTauri) => "./src/..".into(),
+            _ => plain,
+        }
     }
     pub fn output_arg(&self, s: &Setup) -> String {
         let plain = self.rel_from_cwd(s, &s.out);
@@ -258,6 +316,13 @@ impl World {
 
     /// Write configuration files for this setup. Returns nothing; `argv` gives the
     /// matching command line.
+    fn output_arg_in_file(&self, s: &Setup, c: &Cfg) -> String {
+        match &c.file_out {
+            Some(o) => self.rel_from_cwd(s, o),
+            None => self.output_arg(s),
+        }
+    }
+
     pub fn write_config(&self, s: &Setup, c: &Cfg) {
         let tconf = self.src_tauri().join("tauri.conf.json");
         let mut doc: serde_json::Value = serde_json::from_str(BASE_TAURI_CONF).unwrap();
@@ -268,7 +333,7 @@ impl World {
             ConfSrc::Tauri => {
                 let mut t = serde_json::Map::new();
                 t.insert("projectPath".into(), self.project_arg(s).into());
-                t.insert("outputPath".into(), self.output_arg(s).into());
+                t.insert("outputPath".into(), self.output_arg_in_file(s, c).into());
                 t.insert("validationLibrary".into(), c.mode_in_file().into());
                 if c.visualize_in_file() {
                     t.insert("visualizeDeps".into(), true.into());
@@ -287,7 +352,7 @@ impl World {
             ConfSrc::Standalone => {
                 let mut t = serde_json::Map::new();
                 t.insert("project_path".into(), self.project_arg(s).into());
-                t.insert("output_path".into(), self.output_arg(s).into());
+                t.insert("output_path".into(), self.output_arg_in_file(s, c).into());
                 t.insert("validation_library".into(), c.mode_in_file().into());
                 if c.visualize_in_file() {
                     t.insert("visualize_deps".into(), true.into());
@@ -328,6 +393,10 @@ impl World {
             }
             if c.flag_visualize {
                 a.push("--visualize-deps".into());
+            }
+            if c.file_out.is_some() {
+                a.push("-o".into());
+                a.push(self.output_arg(s));
             }
         }
         match s.conf {
@@ -372,6 +441,42 @@ impl World {
         }
         s
     }
+    /// modification times (sec, nsec) of every regular file, keyed like a snapshot
+    pub fn file_times(&self) -> BTreeMap<String, (i64, i64)> {
+        use std::os::unix::fs::MetadataExt;
+        fn walk(base: &Path, d: &Path, out: &mut BTreeMap<String, (i64, i64)>) {
+            if let Ok(rd) = fs::read_dir(d) {
+                for e in rd.flatten() {
+                    let p = e.path();
+                    if let Ok(md) = fs::symlink_metadata(&p) {
+                        if md.is_dir() {
+                            walk(base, &p, out);
+                        } else if md.is_file() {
+                            out.insert(p.strip_prefix(base).unwrap().to_string_lossy().into_owned(), (md.mtime(), md.mtime_nsec()));
+                        }
+                    }
+                }
+            }
+        }
+        let mut m = BTreeMap::new();
+        walk(&self.root, &self.root, &mut m);
+        m
+    }
+    /// `restore`, then put the recorded modification times back
+    pub fn restore_with_times(&self, snap: &Snapshot, times: &BTreeMap<String, (i64, i64)>) {
+        self.restore(snap);
+        for (rel, (s, ns)) in times {
+            let p = self.root.join(rel);
+            use std::os::unix::ffi::OsStrExt;
+            if let Ok(c) = std::ffi::CString::new(p.as_os_str().as_bytes()) {
+                let t = libc::timespec { tv_sec: *s as libc::time_t, tv_nsec: *ns as libc::c_long };
+                let ts = [t, t];
+                unsafe {
+                    libc::syscall(libc::SYS_utimensat, libc::AT_FDCWD as libc::c_long, c.as_ptr(), ts.as_ptr(), libc::AT_SYMLINK_NOFOLLOW as libc::c_long);
+                }
+            }
+        }
+    }
     pub fn restore(&self, snap: &Snapshot) {
         // make everything removable first
         chmod_tree(&self.root);
@@ -401,6 +506,33 @@ impl World {
                     std::os::unix::fs::symlink(t, &p).unwrap();
                 }
             }
+        }
+    }
+}
+
+fn collect_rs(dir: &Path, out: &mut Vec<PathBuf>) {
+    if let Ok(rd) = fs::read_dir(dir) {
+        for e in rd.flatten() {
+            let p = e.path();
+            match e.file_type() {
+                Ok(t) if t.is_dir() => collect_rs(&p, out),
+                Ok(_) if p.extension().map(|x| x == "rs").unwrap_or(false) => out.push(p),
+                _ => {}
+            }
+        }
+    }
+}
+
+/// stamp a (simulated) modification time on a file
+pub fn set_mtime(p: &Path, secs: i64) {
+    use std::os::unix::ffi::OsStrExt;
+    if let Ok(c) = std::ffi::CString::new(p.as_os_str().as_bytes()) {
+        let ts = [
+            libc::timespec { tv_sec: secs as libc::time_t, tv_nsec: 0 },
+            libc::timespec { tv_sec: secs as libc::time_t, tv_nsec: 0 },
+        ];
+        unsafe {
+            libc::syscall(libc::SYS_utimensat, libc::AT_FDCWD as libc::c_long, c.as_ptr(), ts.as_ptr(), 0 as libc::c_long);
         }
     }
 }
